@@ -1,1 +1,573 @@
-//! (module to be written)
+//! Lig/kern reference model over *raw* TFM instruction words.
+//!
+//! * `run`   – transliteration of TeX's main loop, tex.web §1034‑1040 (`main_loop`, `main_loop_wrapup`,
+//!             `main_loop_move`, `main_loop_move_lig`, `main_loop_lookahead`, `main_lig_loop`) with the
+//!             node bookkeeping (`lig_stack`, `cur_q`, `pack_lig`, `lft_hit`, `rt_hit`) kept, so that the
+//!             output is the horizontal list TeX would build for one word: character nodes, ligature
+//!             nodes (character, original characters, boundary flags = `subtype`) and kerns.
+//! * `knuth_loop` – the infinite-loop detector of TFtoPL §88‑95 (function `f(x,y)` memoised in a table
+//!             of pairs with a *pending* class), restricted to the instructions TeX executes.
+//! * `pair_loops` – bounded direct simulation of one starting pair, the cross-check of `knuth_loop`.
+//!
+//! A raw instruction is the 4-byte word `[skip_byte, next_char, op_byte, remainder]` of the TFM
+//! `lig_kern` array (tex.web §545). No repository types; all arithmetic is on `usize`/`i32` indices.
+
+/// `[skip_byte, next_char, op_byte, remainder]`
+pub type Word = [u8; 4];
+
+pub const STOP_FLAG: u8 = 128; // tex.web §545
+pub const KERN_FLAG: u8 = 128; // tex.web §545
+const NON_CHAR: i32 = 256; // tex.web §549
+
+/// The part of a loaded font that the main loop looks at.
+#[derive(Clone, Debug, PartialEq, Eq)]
+pub struct Font {
+    pub words: Vec<Word>,
+    /// `start[c]` = index of the first instruction that `main_lig_loop` examines for left character `c`
+    /// (after the `lig_kern_restart` indirection of §1039), or None if `char_tag(c) <> lig_tag`.
+    pub start: Vec<Option<usize>>,
+    /// `font_bchar` (§549/§576): the right boundary character.
+    pub bchar: Option<u8>,
+    /// `bchar_label` (§549/§576): start of the left boundary program; None = `non_address`.
+    pub bchar_label: Option<usize>,
+}
+
+impl Font {
+    /// A font given directly by resolved entry points (no TFM involved).
+    pub fn new(words: Vec<Word>, starts: &[(u8, usize)], bchar: Option<u8>, bchar_label: Option<usize>) -> Font {
+        let mut start = vec![None; 256];
+        for (c, s) in starts {
+            start[*c as usize] = Some(*s);
+        }
+        Font { words, start, bchar, bchar_label }
+    }
+
+    /// Entry points as a TFM file gives them: `lig_rem[c]` is the remainder byte of every character
+    /// whose tag is 1. §1039: if the first instruction has `skip_byte > stop_flag` the program really
+    /// starts at `256*op_byte + remainder`. §573/§576: the first word supplies `bchar` and the last
+    /// word `bchar_label` when their skip byte is 255.
+    pub fn from_tfm(words: Vec<Word>, lig_rem: &[(u8, u8)]) -> Font {
+        let nl = words.len();
+        let mut start = vec![None; 256];
+        for (c, r) in lig_rem {
+            let mut k = *r as usize;
+            if let Some(w) = words.get(k) {
+                if w[0] > STOP_FLAG {
+                    k = 256 * w[2] as usize + w[3] as usize;
+                }
+            }
+            start[*c as usize] = Some(k);
+        }
+        let bchar = match words.first() {
+            Some(w) if w[0] == 255 => Some(w[1]),
+            _ => None,
+        };
+        let bchar_label = match words.last() {
+            Some(w) if w[0] == 255 => {
+                let l = 256 * w[2] as usize + w[3] as usize;
+                if l < nl {
+                    Some(l)
+                } else {
+                    None
+                }
+            }
+            _ => None,
+        };
+        Font { words, start, bchar, bchar_label }
+    }
+}
+
+#[derive(Clone, Debug, PartialEq, Eq)]
+pub enum Node {
+    Char(u8),
+    /// `orig` = characters of `lig_ptr`; `left`/`right` = the boundary bits of `subtype` (§143).
+    Lig { c: u8, orig: Vec<u8>, left: bool, right: bool },
+    /// Index into the kern table: `256*(op_byte-128)+remainder` (§557 `char_kern`).
+    Kern(usize),
+}
+
+/// One executed ligature/kern command (for the vacuity counters of the checks).
+#[derive(Clone, Copy, Debug, PartialEq, Eq)]
+pub struct Fired {
+    pub k: usize,
+    pub kern: bool,
+    /// `cur_l = non_char`: a left boundary rule.
+    pub left_boundary: bool,
+    /// `lig_stack = null` when the command matched: the right character was the boundary character.
+    pub right_boundary: bool,
+    /// a ligature was already under construction at the cursor (`ligature_present`) or the right
+    /// character was itself inserted by an earlier command.
+    pub on_ligature: bool,
+}
+
+#[derive(Clone, Debug, Default, PartialEq, Eq)]
+pub struct Run {
+    pub nodes: Vec<Node>,
+    pub fired: Vec<Fired>,
+}
+
+#[derive(Clone, Copy, Debug)]
+enum LigItem {
+    /// a character node (always the bottom of the stack: its link is null)
+    CharNode(u8),
+    /// a `lig_item` (§1035 `new_lig_item`): character + optional `lig_ptr` (one character node)
+    Item { ch: u8, ptr: Option<u8> },
+}
+impl LigItem {
+    fn character(&self) -> u8 {
+        match self {
+            LigItem::CharNode(c) => *c,
+            LigItem::Item { ch, .. } => *ch,
+        }
+    }
+}
+
+#[derive(Clone, Copy, PartialEq, Eq)]
+enum L {
+    Wrapup,
+    Move,
+    Move1,
+    Move2,
+    MoveLig,
+    Lookahead,
+    LigLoop,
+    LigLoop1,
+}
+
+/// Run the main loop on one word. `left_boundary = false` is `\noboundary` before the word
+/// (`cancel_boundary`); `bchar` is the right boundary character in force (normally `font.bchar`).
+/// Every character is assumed to exist in the font (no `char_warning` path, `false_bchar = non_char`).
+/// Returns None when more than `budget` ligature commands were executed (the loop `check_interrupt`
+/// exists for).
+#[allow(unused_assignments)]
+pub fn run(font: &Font, word: &[u8], left_boundary: bool, bchar: Option<u8>, budget: usize) -> Option<Run> {
+    let mut out = Run::default();
+    if word.is_empty() {
+        return Some(out);
+    }
+    let mut bchar: i32 = bchar.map(|c| c as i32).unwrap_or(NON_CHAR);
+    let mut input = word[1..].iter().copied();
+    let mut nodes: Vec<Node> = vec![];
+    // §1034: the first character becomes lig_stack; cur_q := tail
+    let mut lig_stack: Vec<LigItem> = vec![LigItem::CharNode(word[0])];
+    let mut cur_l: i32 = word[0] as i32;
+    let mut cur_r: i32 = NON_CHAR;
+    let mut cur_q: usize = nodes.len();
+    let mut ligature_present = false;
+    let mut lft_hit = false;
+    let mut rt_hit = false;
+    let mut main_k: usize = 0;
+    let mut steps = 0usize;
+    // whether the character now in cur_r was inserted by a command (only for `Fired::on_ligature`)
+    let mut r_inserted = false;
+
+    // pack_lig(#) / wrapup(#), §1035
+    macro_rules! wrapup {
+        ($flag:expr) => {
+            if cur_l < NON_CHAR {
+                if ligature_present {
+                    let orig: Vec<u8> = nodes
+                        .drain(cur_q..)
+                        .map(|n| match n {
+                            Node::Char(c) => c,
+                            _ => unreachable!("only character nodes follow cur_q"),
+                        })
+                        .collect();
+                    let left = lft_hit;
+                    if lft_hit {
+                        lft_hit = false;
+                    }
+                    let mut right = false;
+                    if $flag && lig_stack.is_empty() {
+                        right = true;
+                        rt_hit = false;
+                    }
+                    nodes.push(Node::Lig { c: cur_l as u8, orig, left, right });
+                    ligature_present = false;
+                }
+            }
+        };
+    }
+
+    let mut at = if left_boundary && font.bchar_label.is_some() {
+        // begin with cursor after left boundary
+        main_k = font.bchar_label.unwrap();
+        cur_r = cur_l;
+        cur_l = NON_CHAR;
+        L::LigLoop1
+    } else {
+        L::Move2
+    };
+
+    loop {
+        match at {
+            L::Wrapup => {
+                wrapup!(rt_hit);
+                at = L::Move;
+            }
+            L::Move => {
+                // §1036
+                let Some(top) = lig_stack.last() else { break };
+                cur_q = nodes.len();
+                cur_l = top.character() as i32;
+                at = L::Move1;
+            }
+            L::Move1 => {
+                at = match lig_stack.last() {
+                    Some(LigItem::CharNode(_)) => L::Move2,
+                    _ => L::MoveLig,
+                };
+            }
+            L::Move2 => {
+                // link(tail):=lig_stack; tail:=lig_stack
+                let Some(LigItem::CharNode(c)) = lig_stack.pop() else { unreachable!("main_loop_move+2 needs a character node") };
+                nodes.push(Node::Char(c));
+                at = L::Lookahead;
+            }
+            L::MoveLig => {
+                // §1037
+                let Some(LigItem::Item { ptr, .. }) = lig_stack.pop() else { unreachable!("main_loop_move_lig needs a lig item") };
+                if let Some(c) = ptr {
+                    nodes.push(Node::Char(c));
+                }
+                ligature_present = true;
+                match lig_stack.last() {
+                    None => {
+                        if ptr.is_some() {
+                            at = L::Lookahead;
+                            continue;
+                        }
+                        cur_r = bchar;
+                        r_inserted = false;
+                    }
+                    Some(t) => {
+                        cur_r = t.character() as i32;
+                        r_inserted = matches!(t, LigItem::Item { .. });
+                    }
+                }
+                at = L::LigLoop;
+            }
+            L::Lookahead => {
+                // §1038 (only letters and the end of the word exist here)
+                match input.next() {
+                    Some(c) => {
+                        lig_stack = vec![LigItem::CharNode(c)];
+                        cur_r = c as i32;
+                    }
+                    None => {
+                        cur_r = bchar;
+                        lig_stack.clear();
+                    }
+                }
+                r_inserted = false;
+                at = L::LigLoop;
+            }
+            L::LigLoop => {
+                // §1039
+                if cur_r == NON_CHAR {
+                    at = L::Wrapup;
+                    continue;
+                }
+                match font.start.get(cur_l as usize).copied().flatten() {
+                    None => at = L::Wrapup,
+                    Some(k) => {
+                        main_k = k;
+                        at = L::LigLoop1;
+                    }
+                }
+            }
+            L::LigLoop1 => {
+                let Some(j) = font.words.get(main_k).copied() else {
+                    // TeX refuses to load a font whose programs leave the array (§573); stop here.
+                    at = L::Wrapup;
+                    continue;
+                };
+                let [skip, next, op, rem] = j;
+                if next as i32 == cur_r && skip <= STOP_FLAG {
+                    // §1040
+                    let f = Fired { k: main_k, kern: op >= KERN_FLAG, left_boundary: cur_l == NON_CHAR, right_boundary: lig_stack.is_empty(), on_ligature: ligature_present || r_inserted };
+                    out.fired.push(f);
+                    if op >= KERN_FLAG {
+                        wrapup!(rt_hit);
+                        nodes.push(Node::Kern(256 * (op - KERN_FLAG) as usize + rem as usize));
+                        at = L::Move;
+                        continue;
+                    }
+                    if cur_l == NON_CHAR {
+                        lft_hit = true;
+                    } else if lig_stack.is_empty() {
+                        rt_hit = true;
+                    }
+                    steps += 1;
+                    if steps > budget {
+                        return None;
+                    }
+                    match op {
+                        1 | 5 => {
+                            cur_l = rem as i32;
+                            ligature_present = true;
+                        }
+                        2 | 6 => {
+                            cur_r = rem as i32;
+                            r_inserted = true;
+                            match lig_stack.pop() {
+                                None => {
+                                    // right boundary character is being consumed
+                                    lig_stack.push(LigItem::Item { ch: rem, ptr: None });
+                                    bchar = NON_CHAR;
+                                }
+                                Some(LigItem::CharNode(c)) => lig_stack.push(LigItem::Item { ch: rem, ptr: Some(c) }),
+                                Some(LigItem::Item { ptr, .. }) => lig_stack.push(LigItem::Item { ch: rem, ptr }),
+                            }
+                        }
+                        3 => {
+                            cur_r = rem as i32;
+                            r_inserted = true;
+                            lig_stack.push(LigItem::Item { ch: rem, ptr: None });
+                        }
+                        7 | 11 => {
+                            wrapup!(false);
+                            cur_q = nodes.len();
+                            cur_l = rem as i32;
+                            ligature_present = true;
+                        }
+                        _ => {
+                            // =: (and every nonstandard code, as in §1040 `othercases`)
+                            cur_l = rem as i32;
+                            ligature_present = true;
+                            at = if lig_stack.is_empty() { L::Wrapup } else { L::Move1 };
+                            continue;
+                        }
+                    }
+                    if op > 4 && op != 7 {
+                        at = L::Wrapup;
+                        continue;
+                    }
+                    if cur_l < NON_CHAR {
+                        at = L::LigLoop;
+                        continue;
+                    }
+                    match font.bchar_label {
+                        Some(k) => {
+                            main_k = k;
+                            at = L::LigLoop1;
+                        }
+                        None => at = L::Wrapup, // cannot happen: cur_l = non_char only via bchar_label
+                    }
+                    continue;
+                }
+                if skip == 0 {
+                    main_k += 1;
+                } else {
+                    if skip >= STOP_FLAG {
+                        at = L::Wrapup;
+                        continue;
+                    }
+                    main_k += skip as usize + 1;
+                }
+                // stay at LigLoop1
+            }
+        }
+    }
+    out.nodes = nodes;
+    Some(out)
+}
+
+// ------------------------------------------------------------------ loop detection, TFtoPL §88-95
+
+#[derive(Clone, Copy, PartialEq, Eq, Debug)]
+enum Class {
+    Simple,
+    LeftZ,
+    RightZ,
+    BothZ,
+    Pending,
+}
+
+/// The table of TFtoPL §89: (x, y) -> (class, lig_z), x = 256 for the left boundary.
+struct Hash {
+    class: Vec<Class>,
+    lig_z: Vec<i32>,
+    present: Vec<bool>,
+    cycle: Option<(i32, i32)>,
+}
+
+fn key(x: i32, y: i32) -> usize {
+    (x as usize) * 256 + y as usize
+}
+
+impl Hash {
+    /// §94 `eval`
+    fn eval(&mut self, x: i32, y: i32) -> i32 {
+        if x > 256 || y > 255 || x < 0 || y < 0 {
+            return y; // 257 = "cycle broken" marker of §95
+        }
+        let h = key(x, y);
+        if !self.present[h] {
+            return y;
+        }
+        self.f(h, x, y)
+    }
+    /// §95 `f`
+    fn f(&mut self, h: usize, x: i32, y: i32) -> i32 {
+        match self.class[h] {
+            Class::Simple => {}
+            Class::LeftZ => {
+                self.class[h] = Class::Pending;
+                let z = self.lig_z[h];
+                self.lig_z[h] = self.eval(z, y);
+                self.class[h] = Class::Simple;
+            }
+            Class::RightZ => {
+                self.class[h] = Class::Pending;
+                let z = self.lig_z[h];
+                self.lig_z[h] = self.eval(x, z);
+                self.class[h] = Class::Simple;
+            }
+            Class::BothZ => {
+                self.class[h] = Class::Pending;
+                let z = self.lig_z[h];
+                let w = self.eval(x, z);
+                self.lig_z[h] = self.eval(w, y);
+                self.class[h] = Class::Simple;
+            }
+            Class::Pending => {
+                self.cycle = Some((x, y));
+                self.lig_z[h] = 257;
+                self.class[h] = Class::Simple;
+            }
+        }
+        self.lig_z[h]
+    }
+}
+
+/// The instructions TeX examines for left character `x` (256 = left boundary), in order, as
+/// (index, word). Stops at a word whose skip byte is >= 128 (after examining it) or outside the array.
+pub fn chain(font: &Font, x: i32) -> Vec<(usize, Word)> {
+    let mut out = vec![];
+    let start = if x == NON_CHAR { font.bchar_label } else { font.start.get(x as usize).copied().flatten() };
+    let Some(mut k) = start else { return out };
+    while let Some(w) = font.words.get(k) {
+        if out.len() > font.words.len() {
+            break;
+        }
+        out.push((k, *w));
+        if w[0] >= STOP_FLAG {
+            break;
+        }
+        k += w[0] as usize + 1;
+    }
+    out
+}
+
+/// The command TeX executes for the pair (x, y): the first word of x's chain with `next_char = y`,
+/// provided its skip byte is <= 128 (§1039: a matching word with a larger skip byte is not executed
+/// and ends the search).
+pub fn command_for(font: &Font, x: i32, y: u8) -> Option<(usize, Word)> {
+    for (k, w) in chain(font, x) {
+        if w[1] == y {
+            return if w[0] <= STOP_FLAG { Some((k, w)) } else { None };
+        }
+    }
+    None
+}
+
+/// TFtoPL §88-95 on the commands TeX executes. Returns the pair at which a pending entry was met
+/// (x = 256 for the left boundary), or None if no pair loops.
+pub fn knuth_loop(font: &Font) -> Option<(i32, i32)> {
+    let n = 257 * 256;
+    let mut h = Hash { class: vec![Class::Simple; n], lig_z: vec![0; n], present: vec![false; n], cycle: None };
+    let mut order: Vec<(i32, i32)> = vec![];
+    // §91: enter the commands of every character, then of the boundary (c = 256)
+    for x in (0..=256).map(|c| c as i32) {
+        for (_, w) in chain(font, x) {
+            let [skip, y, t, rem] = w;
+            if skip > STOP_FLAG {
+                continue; // never executed by TeX (§1039); TFtoPL's hash_input would enter it
+            }
+            let hk = key(x, y as i32);
+            if h.present[hk] {
+                continue; // the first command for a pair wins
+            }
+            // §92: compute cc and zz
+            let (cc, zz) = if t >= KERN_FLAG {
+                (Class::Simple, y as i32)
+            } else {
+                match t {
+                    5 | 11 => (Class::Simple, y as i32),
+                    1 | 7 => (Class::LeftZ, rem as i32),
+                    2 => (Class::RightZ, rem as i32),
+                    3 => (Class::BothZ, rem as i32),
+                    _ => (Class::Simple, rem as i32), // 0, 6 and the nonstandard codes (executed as =:)
+                }
+            };
+            h.present[hk] = true;
+            h.class[hk] = cc;
+            h.lig_z[hk] = zz;
+            order.push((x, y as i32));
+        }
+    }
+    // §90: evaluate every non-simple entry
+    for (x, y) in order {
+        let hk = key(x, y);
+        if h.class[hk] != Class::Simple {
+            h.f(hk, x, y);
+        }
+    }
+    h.cycle
+}
+
+/// Does the pair (x, y) (x = 256: left boundary), taken alone and followed by the right boundary,
+/// execute more than `budget` ligature commands?
+pub fn pair_loops(font: &Font, x: i32, y: u8, budget: usize) -> bool {
+    let r = if x == NON_CHAR {
+        run(font, &[y], true, font.bchar, budget)
+    } else {
+        // no left boundary processing for an inner pair
+        run(font, &[x as u8, y], false, font.bchar, budget)
+    };
+    r.is_none()
+}
+
+/// All (x, y) for which TeX has a ligature (not kern) command, x = 256 for the boundary.
+pub fn lig_pairs(font: &Font) -> Vec<(i32, u8)> {
+    let mut out = vec![];
+    for x in (0..=256).map(|c| c as i32) {
+        let mut seen = [false; 256];
+        for (_, w) in chain(font, x) {
+            if seen[w[1] as usize] {
+                continue;
+            }
+            seen[w[1] as usize] = true;
+            if w[0] <= STOP_FLAG && w[2] < KERN_FLAG {
+                out.push((x, w[1]));
+            }
+        }
+    }
+    out
+}
+
+/// Loop oracle by direct simulation: the starting pairs that never terminate.
+pub fn looping_pairs(font: &Font, budget: usize) -> Vec<(i32, u8)> {
+    lig_pairs(font).into_iter().filter(|(x, y)| pair_loops(font, *x, *y, budget)).collect()
+}
+
+#[cfg(test)]
+mod tests {
+    use super::*;
+    #[test]
+    fn fi() {
+        // f i -> =: 12
+        let font = Font::new(vec![[128, b'i', 0, 12]], &[(b'f', 0)], None, None);
+        let r = run(&font, b"fi", true, None, 100).unwrap();
+        assert_eq!(r.nodes, vec![Node::Lig { c: 12, orig: b"fi".to_vec(), left: false, right: false }]);
+        assert!(knuth_loop(&font).is_none());
+    }
+    #[test]
+    fn swap_loop() {
+        // x y -> =:| z ; z y -> =:| x
+        let font = Font::new(vec![[128, b'y', 1, b'z'], [128, b'y', 1, b'x']], &[(b'x', 0), (b'z', 1)], None, None);
+        assert!(knuth_loop(&font).is_some());
+        assert!(pair_loops(&font, b'x' as i32, b'y', 1000));
+    }
+}
